@@ -963,6 +963,7 @@ int vnacal_save(vnacal_t *vcp, const char *pathname)
     (void)yaml_emitter_delete(&emitter);
     delete_emitter = false;
     if (fclose(fp) == -1) {
+	fp = NULL;	/* closed, even though fclose reported an error */
 	_vnacal_error(vcp, VNAERR_SYSTEM, "fclose: %s: %s",
 		vcp->vc_filename, strerror(errno));
 	goto error;
